@@ -37,7 +37,16 @@ fn create_file(dir_path: &Path, file_number: &FileNumber) -> io::Result<File> {
         .create_new(true)
         .write(true)
         .open(new_filepath)?;
+    #[cfg(mrecordlog_verif)]
+    crate::verif::emit(crate::verif::IoEvent::Create {
+        file: file_number.file_number(),
+    });
     file.set_len(FILE_NUM_BYTES as u64)?;
+    #[cfg(mrecordlog_verif)]
+    crate::verif::emit(crate::verif::IoEvent::SetLen {
+        file: file_number.file_number(),
+        len: FILE_NUM_BYTES as u64,
+    });
     file.seek(SeekFrom::Start(0))?;
     Ok(file)
 }
@@ -46,6 +55,8 @@ impl Directory {
     /// Open a `Directory`, or create a new, empty, one. `dir_path` must exist and be a directory.
     pub fn open(dir_path: &Path) -> io::Result<Directory> {
         let mut file_numbers: Vec<u64> = Default::default();
+        #[cfg(mrecordlog_verif)]
+        crate::verif::maybe_fail(crate::verif::FaultSite::ListDir)?;
         for dir_entry_res in std::fs::read_dir(dir_path)? {
             let dir_entry = dir_entry_res?;
             if !dir_entry.file_type()?.is_file() {
@@ -60,6 +71,10 @@ impl Directory {
                 file_numbers.push(seq_number);
             }
         }
+        #[cfg(mrecordlog_verif)]
+        crate::verif::emit(crate::verif::IoEvent::ListDir {
+            files: file_numbers.clone(),
+        });
         let files = if let Some(files) = FileTracker::from_file_numbers(file_numbers) {
             files
         } else {
@@ -92,6 +107,10 @@ impl Directory {
             let filepath = filepath(&self.dir, &file);
             info!(file=%filepath.display(), "gc remove file");
             std::fs::remove_file(&filepath)?;
+            #[cfg(mrecordlog_verif)]
+            crate::verif::emit(crate::verif::IoEvent::Unlink {
+                file: file.file_number(),
+            });
         }
         Ok(())
     }
@@ -99,7 +118,13 @@ impl Directory {
     /// Open the wal file with the provided FileNumber.
     pub fn open_file(&self, file_number: &FileNumber) -> io::Result<File> {
         let filepath = filepath(&self.dir, file_number);
+        #[cfg(mrecordlog_verif)]
+        crate::verif::maybe_fail(crate::verif::FaultSite::OpenFile)?;
         let mut file = OpenOptions::new().read(true).write(true).open(filepath)?;
+        #[cfg(mrecordlog_verif)]
+        crate::verif::emit(crate::verif::IoEvent::Open {
+            file: file_number.file_number(),
+        });
         file.seek(SeekFrom::Start(0u64))?;
         Ok(file)
     }
@@ -111,6 +136,8 @@ impl Directory {
         open_opts.read(true);
         let fd = open_opts.open(&self.dir)?;
         fd.sync_data()?;
+        #[cfg(mrecordlog_verif)]
+        crate::verif::emit(crate::verif::IoEvent::DirSync);
         Ok(())
     }
 }
@@ -130,7 +157,14 @@ impl RollingReader {
         let first_file = directory.first_file_number().clone();
         let mut file = directory.open_file(&first_file)?;
         let mut block = Box::new([0u8; BLOCK_NUM_BYTES]);
+        #[cfg(mrecordlog_verif)]
+        crate::verif::maybe_fail(crate::verif::FaultSite::ReadBlock)?;
         file.read_exact(&mut *block)?;
+        #[cfg(mrecordlog_verif)]
+        crate::verif::emit(crate::verif::IoEvent::ReadBlock {
+            file: first_file.file_number(),
+            ok: true,
+        });
         Ok(RollingReader {
             file,
             directory,
@@ -149,7 +183,14 @@ impl RollingReader {
     /// If no block was read, positions itself at the beginning.
     pub fn into_writer(mut self) -> io::Result<RollingWriter> {
         let offset = self.block_id * crate::BLOCK_NUM_BYTES;
+        #[cfg(mrecordlog_verif)]
+        crate::verif::maybe_fail(crate::verif::FaultSite::Seek)?;
         self.file.seek(SeekFrom::Start(offset as u64))?;
+        #[cfg(mrecordlog_verif)]
+        crate::verif::emit(crate::verif::IoEvent::Seek {
+            file: self.file_number.file_number(),
+            offset: offset as u64,
+        });
         Ok(RollingWriter {
             file: BufWriter::with_capacity(FRAME_NUM_BYTES, self.file),
             offset,
@@ -169,7 +210,14 @@ fn read_block(file: &mut File, block: &mut [u8; BLOCK_NUM_BYTES]) -> io::Result<
 
 impl BlockRead for RollingReader {
     fn next_block(&mut self) -> io::Result<bool> {
+        #[cfg(mrecordlog_verif)]
+        crate::verif::maybe_fail(crate::verif::FaultSite::ReadBlock)?;
         let success = read_block(&mut self.file, &mut self.block)?;
+        #[cfg(mrecordlog_verif)]
+        crate::verif::emit(crate::verif::IoEvent::ReadBlock {
+            file: self.file_number.file_number(),
+            ok: success,
+        });
         if success {
             self.block_id += 1;
             return Ok(true);
@@ -184,7 +232,14 @@ impl BlockRead for RollingReader {
 
         loop {
             let mut next_file: File = self.directory.open_file(&next_file_number)?;
+            #[cfg(mrecordlog_verif)]
+            crate::verif::maybe_fail(crate::verif::FaultSite::ReadBlock)?;
             let success = read_block(&mut next_file, &mut self.block)?;
+            #[cfg(mrecordlog_verif)]
+            crate::verif::emit(crate::verif::IoEvent::ReadBlock {
+                file: next_file_number.file_number(),
+                ok: success,
+            });
             if success {
                 self.block_id = 0;
                 self.file = next_file;
@@ -218,6 +273,11 @@ impl RollingWriter {
     pub fn forward(&mut self, num_bytes: usize) -> io::Result<()> {
         self.file.seek(SeekFrom::Current(num_bytes as i64))?;
         self.offset += num_bytes;
+        #[cfg(mrecordlog_verif)]
+        crate::verif::emit(crate::verif::IoEvent::Seek {
+            file: self.file_number.file_number(),
+            offset: self.offset as u64,
+        });
         Ok(())
     }
 
@@ -245,7 +305,15 @@ impl BlockWrite for RollingWriter {
         assert!(buf.len() <= self.num_bytes_remaining_in_block());
         if self.offset + buf.len() > FILE_NUM_BYTES {
             self.file.flush()?;
+            #[cfg(mrecordlog_verif)]
+            crate::verif::emit(crate::verif::IoEvent::Flush {
+                file: self.file_number.file_number(),
+            });
             self.file.get_ref().sync_data()?;
+            #[cfg(mrecordlog_verif)]
+            crate::verif::emit(crate::verif::IoEvent::Fdatasync {
+                file: self.file_number.file_number(),
+            });
             self.directory.sync_directory()?;
 
             let (file_number, file) =
@@ -264,18 +332,44 @@ impl BlockWrite for RollingWriter {
         }
         self.offset += buf.len();
         self.file.write_all(buf)?;
+        #[cfg(mrecordlog_verif)]
+        if crate::verif::recording() {
+            crate::verif::emit(crate::verif::IoEvent::BufWrite {
+                file: self.file_number.file_number(),
+                offset: (self.offset - buf.len()) as u64,
+                bytes: buf.to_vec(),
+                buffered_after: self.file.buffer().len(),
+            });
+        }
         Ok(())
     }
 
+    #[cfg_attr(mrecordlog_verif, allow(unreachable_code))]
     fn persist(&mut self, persist_action: PersistAction) -> io::Result<()> {
         match persist_action {
             PersistAction::FlushAndFsync => {
                 self.file.flush()?;
+                #[cfg(mrecordlog_verif)]
+                crate::verif::emit(crate::verif::IoEvent::Flush {
+                    file: self.file_number.file_number(),
+                });
                 self.file.get_ref().sync_data()?;
+                #[cfg(mrecordlog_verif)]
+                crate::verif::emit(crate::verif::IoEvent::Fdatasync {
+                    file: self.file_number.file_number(),
+                });
                 self.directory.sync_directory()
             }
             PersistAction::Flush => {
                 // This will flush the buffer of the BufWriter to the underlying OS.
+                #[cfg(mrecordlog_verif)]
+                {
+                    self.file.flush()?;
+                    crate::verif::emit(crate::verif::IoEvent::Flush {
+                        file: self.file_number.file_number(),
+                    });
+                    return Ok(());
+                }
                 self.file.flush()
             }
         }
